@@ -698,45 +698,45 @@ def ir_heap(model, it: Interner, tensor_key_fn=tensor_key) -> tuple[str, str, IR
 
 def exp_tables(it: Interner, protos=(), models=()) -> tuple[str, str]:
     """The two string operations of the IR<10 experimental function value-info format as per-case tables over name
-    tokens (C03/ModelOld.v): X (parse: composite-name token -> (function id token with overload "", value name
-    token), through the library's own parser = leaf level) and Y (compose: (function id token, value name token) ->
-    composite-name token, the format "{domain}::{function}/{value}")."""
-    from onnx_ir import serde
-    X, Y = {}, {}
-
-    def parse(name):
-        if not isinstance(name, str):
-            return
-        try:
-            r = serde._parse_experimental_function_value_info_name(name)  # noqa: SLF001
-        except Exception:  # noqa: BLE001
-            r = None
-        if r is not None:
-            d, f, v = r
-            X[it.tok(name)] = (it.tok(("fn", d, f, "")), it.tok(v))
+    tokens (C03/ModelOld.v): X (the reader's relation since 348a4f1: a main-graph value_info name is related to
+    (function id token, value name token) for EVERY existing function whose qualified prefix "{domain}::{name}/" it
+    starts with - any overload; the value name is the rest) and Y (compose: (function id token, value name token)
+    -> composite-name token, the format "{domain}::{function}/{value}").  Plain string operations, computed here."""
+    names, fids, Y = set(), set(), {}
 
     def compose(domain, fname, overload, vname):
+        fids.add((domain, fname, overload))
         if not isinstance(vname, str):
             return
         c = f"{domain}::{fname}/{vname}"
         Y[(it.tok(("fn", domain, fname, overload)), it.tok(vname))] = it.tok(c)
-        parse(c)
+        names.add(c)
     for p in protos:
         if p is None:
             continue
         for vi in p.graph.value_info:
-            parse(vi.name)
+            names.add(vi.name)
         for f in p.functions:
+            fids.add((f.domain, f.name, getattr(f, "overload", "")))
             for k in list(f.input) + [o for n in f.node for o in n.output]:
                 compose(f.domain, f.name, getattr(f, "overload", ""), k)
     for m in models:
         if m is None:
             continue
         for f in m.functions.values():
+            fids.add((f.domain, f.name, f.overload))
             for v in list(f.inputs) + [o for n in f for o in n.outputs]:
                 if v.name is not None:
                     compose(f.domain, f.name, f.overload, v.name)
-    xs = clist(f"({a}%N, ({b}%N, {c}%N))" for a, (b, c) in sorted(X.items()))
+    X = set()
+    for n in names:
+        if not isinstance(n, str):
+            continue
+        for d, f, o in fids:
+            pre = f"{d}::{f}/"
+            if n.startswith(pre):
+                X.add((it.tok(n), it.tok(("fn", d, f, o)), it.tok(n[len(pre):])))
+    xs = clist(f"({a}%N, ({b}%N, {c}%N))" for a, b, c in sorted(X))
     ys = clist(f"({a}%N, {b}%N, {c}%N)" for (a, b), c in sorted(Y.items()))
     return xs, ys
 
@@ -777,6 +777,12 @@ non-input initializers have type+shape (fill fixpoint)).  It is WEAKER than the 
 (restrictions (1) and (2) below are gone: the unfolding compares what the format carries); the implication
 old => new and the theorem's statement itself (`iso_tm_statement_b`) are evaluated by Coq on every generated case.
 C03_ser_deser_ser: under serializable_tm and an idempotent leaf normalisation, ser (deser (ser h)) = ser h.
+Round 5 (seeded C03-r5m1): STRING attributes holding byte blobs (recipe kind "bytes": invalid UTF-8, valid UTF-8, ASCII,
+empty, a lone-surrogate encoding) and STRINGS with bytes elements (kind "strsb": the leaf serializer rejects them ->
+not serializable, sbad flag).  Rule checked by IsoCheck.attr on the real objects: a str comes back as the same str; a
+byte blob comes back as the SAME bytes when it is not valid UTF-8 and as the str it decodes to when it is (the reader's
+text canonicalisation, accepted).  attr_key keys a valid-UTF-8 blob as its text and an undecodable blob as bytes, so the
+leaf token distinguishes bytes from str exactly where the library does.
 IR < 10 experimental function value-info format: modelled since the deepening round (C03/ModelOld.v, tables X/Y from
 exp_tables): cases with ir_version < 10 and functions are no longer skipped: agree_ser_x / agree_after_ser_x /
 agree_roundtrip_x compare the code with ser_model_old / deser_model_old; theorem C03_ser_readonly_old (C03_iso itself is
